@@ -75,9 +75,6 @@ def judge(node, step, tr):
             if fp not in seen:
                 seen.add(fp)
                 out.append((fp, {'where': where}))
-        if tr.gate_diff:
-            out.append(('C01|simulated-signature-differs-from-documented-'
-                        'effect|%s' % trig, {'diff': str(tr.gate_diff)[:400]}))
         if tr.fk_violations:
             out.append(('C01|fk-check|%s' % trig,
                         {'rows': tr.fk_violations[:3]}))
